@@ -485,9 +485,17 @@ fn run_rt(c: &Case, ops: &[Op], intents: &[IntentSpec]) -> RunOut {
                 );
                 o.outs.push(if r.is_ok() { "U1".into() } else { "U0".into() });
             }
-            Op::SetPol(..) => {
-                // no public API changes the policy of a registered head
-                o.outs.push("U0".into());
+            Op::SetPol(h, p) => {
+                // echo_verif hook: HeadInbox::set_policy on the inbox of a registered head
+                let key = c.heads[*h].key;
+                let ok = rt.verif_set_head_inbox_policy(&key, p.real());
+                if ok {
+                    let ib = rt.heads().get(&key).unwrap().inbox();
+                    if pending_of(ib).iter().any(|e| !ib.would_accept(e)) {
+                        o.flags.push("pending-violates-new-policy".into());
+                    }
+                }
+                o.outs.push(if ok { "U1".into() } else { "U0".into() });
             }
         }
     }
@@ -894,6 +902,10 @@ fn with_retries(ops: &[Op], rng: &mut Rng, same_window: bool) -> Vec<Op> {
         }
         let src = subs[rng.below(subs.len())];
         let mut end = v.len();
+        // a policy change legitimately changes what a later retry does (evicted / formerly rejected intents)
+        if let Some(q) = (src + 1..v.len()).find(|&i| matches!(v[i], Op::SetPol(..))) {
+            end = q;
+        }
         if same_window {
             // a bare HeadInbox has no committed set: a retry is only idempotent while pending
             end = src + 1;
